@@ -199,6 +199,18 @@ func init() {
 		p := (*u).(structure)[fieldIndex(urlT, "Path")]
 		root := value("")
 		if fs, ok := o.aux.(iface); ok {
+			if fs.t != nil && fs.t.String() != "net/http.Dir" {
+				// a FileSystem of the program's own: the file server calls its Open with the
+				// cleaned, slash-rooted name; what Open does is the program's code and is run
+				pkg := fr.i.prog.ImportedPackage("path")
+				if pkg == nil || pkg.Func("Clean") == nil {
+					fr.ex().unsupported("custom http.FileSystem: package path not loaded")
+				}
+				name := callSSA(fr.i, fr, 0, pkg.Func("Clean"), []value{mkStr(append(strBytes(fr.ex().ts, "/"), strBytes(fr.ex().ts, p)...))}, nil)
+				fr.i.event("FileServer.custom", fs.t.String(), name)
+				callMethod(fr.i, fr, fs, "Open", name)
+				return nil
+			}
 			if s, ok := fs.v.(string); ok {
 				root = s
 			} else if s, ok := fs.v.(*symStr); ok {
@@ -263,7 +275,26 @@ func init() {
 				}
 			}
 		}
-		fr.i.event("formam.Decode", tag)
+		// what the decoder is given under the key "tags": count and values
+		tags := ""
+		if m, ok := args[1].(*omap); ok && m != nil {
+			if e := m.find(fr.ex(), "tags"); e != nil {
+				if vs, ok := e.val.([]value); ok {
+					tags = fmt.Sprint(len(vs)) + ":"
+					for i, v := range vs {
+						if i > 0 {
+							tags += "|"
+						}
+						if sv, ok := v.(string); ok {
+							tags += sv
+						} else {
+							tags += "?"
+						}
+					}
+				}
+			}
+		}
+		fr.i.event("formam.Decode", tag, tags)
 		return symErr(fr, "formam.Decode")
 	}
 	// gookit/validate is the boundary: rux's own stdValidator.Validate is
